@@ -187,6 +187,9 @@ Judge(e, n, pre, post) ==
   \* handled by nothing (if anything is stored, validated or sent, the term of ANOTHER height handled it)
   /\ Chk((e.ev = "deliver" /\ same /\ ~pre.member) => (e.stores = <<>> /\ e.sent = <<>> /\ e.vals = <<>>),
          "c17_message_handled_although_node_has_no_term_of_that_height")
+  \* C04: "approved by ValidateBlockProposal ... at that height": what a node asks its consumer to validate is asked for a height
+  \* the node is deciding in this step (its height before the step .. its height after it: a step may close a height and go on)
+  /\ Chk(\A j \in DOMAIN e.vals : e.vals[j].h >= pre.h /\ e.vals[j].h <= post.h, "c04_consumer_asked_to_validate_for_another_height")
   \* C01 / C03 / C04 at every commit callback
   /\ \A i \in DOMAIN e.commits :
        LET c == e.commits[i]
